@@ -7,6 +7,7 @@ import (
 	"regexp"
 	"runtime/debug"
 	"strings"
+	"time"
 
 	"github.com/cnotch/ipchub/av/codec"
 	"github.com/cnotch/ipchub/av/format/flv"
@@ -75,6 +76,11 @@ func (c *chain) WriteMpegtsFrame(f *mpegts.Frame) error {
 	c.ts = append(c.ts, append(b, f.Payload...))
 	return nil
 }
+
+// caseLimit: real-time bound after which one injected fault (a few synchronous calls into the
+// depacketisers and packetisers) is declared non-terminating. Five orders of magnitude above the
+// measured cost of a case, so machine load cannot trip it.
+const caseLimit = 120 * time.Second
 
 var fnRe = regexp.MustCompile(`github.com/cnotch/ipchub/([\w/]+)\.([\w\(\)\*\.]+)\(`)
 
@@ -354,7 +360,7 @@ func main() {
 				}
 			}
 		}
-		rep.Parallel(len(jobs), func(i int) {
+		rep.ParallelWatch(len(jobs), func(i int) {
 			j := jobs[i]
 			panics, diff := trial(h265, j.at, j.bad, clean)
 			rep.Count(1)
@@ -362,6 +368,13 @@ func main() {
 			if i%4999 == 0 {
 				rep.Sample(fmt.Sprintf("%s %s at position %d on %s: %x", name, j.family, j.at, chName(j.bad.ch), trunc(j.bad.payload, 16)))
 			}
+		}, caseLimit, func(i int) {
+			// A conversion call that does not return is the strongest form of "stops conversion of
+			// later good data": in production the demuxer goroutine spins for ever (seed C07-r5-m1).
+			j := jobs[i]
+			rep.Violation("does-not-terminate "+name+" "+j.family,
+				fmt.Sprintf("%s: %s at position %d on %s, payload %x: the conversion chain had not returned after %v (a case normally takes well under a millisecond)", name, j.family, j.at, chName(j.bad.ch), trunc(j.bad.payload, 32), caseLimit),
+				map[string]interface{}{"codec": name, "family": j.family, "position": j.at, "channel": chName(j.bad.ch), "payload_hex": fmt.Sprintf("%x", j.bad.payload)})
 		})
 		rep.SeenN(int64(len(jobs)))
 	}
